@@ -241,6 +241,12 @@ func ParseLoginSuccess(proto int, data []byte) (ls LoginSuccess, err error) {
 			}
 		}
 	}
+	if proto >= P1_20_5 && proto < P1_21_2 {
+		rd.Bool() // strict error handling
+	}
+	if rd.Err == nil && rd.Len() != 0 {
+		return ls, errors.New("rig: trailing bytes after login success")
+	}
 	return ls, rd.Err
 }
 
